@@ -257,76 +257,68 @@ theorem doPollUninterrupted_rel (data : Bytes) (fuel : Nat) (t : Int) (os : Os) 
         obtain ⟨a, os'⟩ := p
         cases a <;> tie_poll_cases hp ih os'
 
-/-- **tie of `Wait`** (and through it `DoPollUninterrupted`, `ToMsec`, `DeadlineLimited`, `Clocked`) -/
-theorem tie_Wait (data : Bytes) (fuel : Nat) (t : Int) (os : Os) (i : Bool) (e : Nat) (hf : os.polls.length < fuel) :
-    (resOf id (Gen.Wait (osWorld data) fuel t ⟨os, i, e⟩).1, (Gen.Wait (osWorld data) fuel t ⟨os, i, e⟩).2.os)
-      = wait t os := by
-  have h := doPollUninterrupted_rel data fuel t os i e hf
-  unfold Gen.Wait
-  simp only [Gen.M.bind]
-  generalize Gen.DoPollUninterrupted (osWorld data) fuel t ⟨os, i, e⟩ = g at h ⊢
-  generalize wait t os = m at h ⊢
+/-- a function that polls through `DoPollUninterrupted` and turns its result into "ready / timeout / throw"
+(`WaitReadable`, `WaitWritable`, the driver's `Wait(pfds, timeout)`; the file-local helpers they are written with -
+`Wait(fd, events, timeout)`, `CheckPollResult(..)` - are inlined by the translator): unfold it, replace the result of
+`DoPollUninterrupted` by what `doPollUninterrupted_rel` says about it, and decide every generated `if` on the
+three possible results 1, 0, -1 -/
+macro "tie_wait_fn" fn:ident data:ident fuel:ident t:ident os:ident i:ident e:ident hf:ident : tactic => `(tactic| (
+  have h := doPollUninterrupted_rel $data $fuel $t $os $i $e $hf
+  simp only [$fn:ident, Gen.M.bind]
+  generalize Gen.DoPollUninterrupted (osWorld $data) $fuel $t ⟨$os, $i, $e⟩ = g at h ⊢
+  generalize wait $t $os = m at h ⊢
   obtain ⟨gr, gw⟩ := g
   obtain ⟨mr, mo⟩ := m
   obtain ⟨h1, h2⟩ := h
   simp only at h1 h2
   subst h1
   cases mr with
-  | ok b => cases b <;> simp only at h2 <;> subst h2 <;> simp [Gen.M.pure, resOf]
+  | ok b => cases b <;> simp only at h2 <;> subst h2 <;> simp [Gen.M.pure, Gen.M.bind, resOf]
   | exn x =>
     cases x <;> simp only at h2
-    · obtain ⟨rfl, hi, rfl⟩ := h2
+    · obtain ⟨h3, hi, h4⟩ := h2
+      subst h3
+      subst h4
       simp [Gen.M.pure, Gen.M.bind, Gen.M.throw, resOf, exnOf]
-    · subst h2; simp [resOf]
+    · subst h2; simp [resOf]))
+
+/-- **tie of `WaitReadable`** (and through it `DoPollUninterrupted`, `ToMsec`, `DeadlineLimited`, `Clocked`) -/
+theorem tie_WaitReadable (data : Bytes) (fuel : Nat) (t : Int) (os : Os) (i : Bool) (e : Nat) (hf : os.polls.length < fuel) :
+    (resOf id (Gen.WaitReadable (osWorld data) fuel t ⟨os, i, e⟩).1, (Gen.WaitReadable (osWorld data) fuel t ⟨os, i, e⟩).2.os)
+      = wait t os := by
+  tie_wait_fn Gen.WaitReadable data fuel t os i e hf
+
+/-- **tie of `WaitWritable`** -/
+theorem tie_WaitWritable (data : Bytes) (fuel : Nat) (t : Int) (os : Os) (i : Bool) (e : Nat) (hf : os.polls.length < fuel) :
+    (resOf id (Gen.WaitWritable (osWorld data) fuel t ⟨os, i, e⟩).1, (Gen.WaitWritable (osWorld data) fuel t ⟨os, i, e⟩).2.os)
+      = wait t os := by
+  tie_wait_fn Gen.WaitWritable data fuel t os i e hf
 
 /-- **tie of `Wait(std::vector<pollfd> &, timeout)`**, the driver's wait: the same statement -/
 theorem tie_WaitPfds (data : Bytes) (fuel : Nat) (t : Int) (os : Os) (i : Bool) (e : Nat) (hf : os.polls.length < fuel) :
     (resOf id (Gen.WaitPfds (osWorld data) fuel t ⟨os, i, e⟩).1, (Gen.WaitPfds (osWorld data) fuel t ⟨os, i, e⟩).2.os)
       = wait t os := by
-  have h := doPollUninterrupted_rel data fuel t os i e hf
-  unfold Gen.WaitPfds
-  simp only [Gen.M.bind]
-  generalize Gen.DoPollUninterrupted (osWorld data) fuel t ⟨os, i, e⟩ = g at h ⊢
-  generalize wait t os = m at h ⊢
-  obtain ⟨gr, gw⟩ := g
-  obtain ⟨mr, mo⟩ := m
-  obtain ⟨h1, h2⟩ := h
-  simp only at h1 h2
-  subst h1
-  cases mr with
-  | ok b => cases b <;> simp only at h2 <;> subst h2 <;> simp [Gen.M.pure, resOf]
-  | exn x =>
-    cases x <;> simp only at h2
-    · obtain ⟨rfl, hi, rfl⟩ := h2
-      simp [Gen.M.pure, Gen.M.bind, Gen.M.throw, resOf, exnOf]
-    · subst h2; simp [resOf]
+  tie_wait_fn Gen.WaitPfds data fuel t os i e hf
 
-/-- how a generated `Wait` runs on a script, in the form the callers' proofs use: the final world is the
-model's final OS (with some `errno` state), the outcome is the model's outcome -/
-theorem wait_run (data : Bytes) (fuel : Nat) (t : Int) (os : Os) (i : Bool) (e : Nat) (hf : os.polls.length < fuel) :
-    ∃ g i' e', Gen.Wait (osWorld data) fuel t ⟨os, i, e⟩ = (g, ⟨(wait t os).2, i', e'⟩) ∧ resOf id g = (wait t os).1 := by
-  have h := tie_Wait data fuel t os i e hf
-  generalize Gen.Wait (osWorld data) fuel t ⟨os, i, e⟩ = r at h
+/-- the ties in the form the callers' proofs use: the final world is the model's final OS (with some `errno`
+state), the outcome is the model's outcome -/
+theorem waitReadable_run (data : Bytes) (fuel : Nat) (t : Int) (os : Os) (i : Bool) (e : Nat) (hf : os.polls.length < fuel) :
+    ∃ g i' e', Gen.WaitReadable (osWorld data) fuel t ⟨os, i, e⟩ = (g, ⟨(wait t os).2, i', e'⟩) ∧ resOf id g = (wait t os).1 := by
+  have h := tie_WaitReadable data fuel t os i e hf
+  generalize Gen.WaitReadable (osWorld data) fuel t ⟨os, i, e⟩ = r at h
   obtain ⟨g, ⟨o, i', e'⟩⟩ := r
   refine ⟨g, i', e', ?_, ?_⟩
   · have : o = (wait t os).2 := by rw [← h]
     rw [this]
   · rw [← h]
 
-/-- **tie of `WaitReadable` / `WaitWritable`** -/
-theorem waitReadable_run (data : Bytes) (fuel : Nat) (t : Int) (os : Os) (i : Bool) (e : Nat) (hf : os.polls.length < fuel) :
-    ∃ g i' e', Gen.WaitReadable (osWorld data) fuel t ⟨os, i, e⟩ = (g, ⟨(wait t os).2, i', e'⟩) ∧ resOf id g = (wait t os).1 := by
-  obtain ⟨g, i', e', h1, h2⟩ := wait_run data fuel t os i e hf
-  refine ⟨g, i', e', ?_, h2⟩
-  unfold Gen.WaitReadable
-  simp only [Gen.M.bind, h1]
-  cases g <;> simp [Gen.M.pure]
-
 theorem waitWritable_run (data : Bytes) (fuel : Nat) (t : Int) (os : Os) (i : Bool) (e : Nat) (hf : os.polls.length < fuel) :
     ∃ g i' e', Gen.WaitWritable (osWorld data) fuel t ⟨os, i, e⟩ = (g, ⟨(wait t os).2, i', e'⟩) ∧ resOf id g = (wait t os).1 := by
-  obtain ⟨g, i', e', h1, h2⟩ := wait_run data fuel t os i e hf
-  refine ⟨g, i', e', ?_, h2⟩
-  unfold Gen.WaitWritable
-  simp only [Gen.M.bind, h1]
-  cases g <;> simp [Gen.M.pure]
+  have h := tie_WaitWritable data fuel t os i e hf
+  generalize Gen.WaitWritable (osWorld data) fuel t ⟨os, i, e⟩ = r at h
+  obtain ⟨g, ⟨o, i', e'⟩⟩ := r
+  refine ⟨g, i', e', ?_, ?_⟩
+  · have : o = (wait t os).2 := by rw [← h]
+    rw [this]
+  · rw [← h]
 end SockModel.Props.C16
